@@ -413,6 +413,27 @@ def explore_fact(case):
             err = max(abs(a - float(b)) for od, om in zip(outs_d, outs) for a, b in zip(od, om))
             if not err <= 1e-9 * (1 + pmax):
                 res.fail(site=site, clause="double_matches_exact", cls="n=%d" % n, detail=dict(P=[[str(x) for x in r] for r in P], err=err), sub="fact", case=case)
+    # matrices at the ends of the double range (a covariance in other units): scaled so that the pivots are subnormal, or near the largest
+    # double, through the numeric call.  The unit-triangular factor does not depend on the scale; D scales with it.
+    if n <= 3:
+        u_ = _util()
+        base = np.array([[4.0, 1, 0.5], [1, 3, 0.25], [0.5, 0.25, 2]])[:n, :n]
+        Lref = from_colmajor(sxvm.run(prog, [colmajor([[Fraction(float(x)) for x in r] for r in base])], sxvm.FRACTION)[0][0], n, n)
+        for sc in (1e-300, 2.0 ** -1030, 2.0 ** -1050, 2.0 ** -1065, 1e300):
+            res.count("evaluations")
+            res.nontrivial.add(hash(("scale", kind, n, sc)))
+            Ms = base * sc
+            try:
+                A_, D_ = (u_.ldl_symmetric_decomposition if kind == "ldl" else u_.udu_symmetric_decomposition)(ca.SX(ca.DM(Ms)))
+                An, Dn = np.array(ca.evalf(ca.densify(A_)), dtype=float), np.array(ca.evalf(ca.densify(D_)), dtype=float)
+            except Exception as ex:
+                res.fail(site=site, clause="operation_raises", cls="scale=%g" % sc, detail=dict(scale=sc, error="%s: %s" % (type(ex).__name__, str(ex)[:200])), sub="fact", case=case)
+                continue
+            # precision left in the subnormal data: 2^-1074 relative to the scale
+            tol = max(1e-9, 64 * 2.0 ** -1074 / sc)
+            Lr = np.array([[float(x) for x in r] for r in Lref])
+            if not (np.all(np.isfinite(An)) and np.all(np.isfinite(Dn))) or np.max(np.abs(An - Lr)) > tol * 10 or np.max(np.abs(An @ Dn @ An.T - Ms)) > tol * sc * 10:
+                res.fail(site=site, clause="factorisation_of_a_rescaled_matrix", cls="scale=%g" % sc, detail=dict(scale=sc, factor=An, D=Dn, reference_factor=Lr), sub="fact", case=case)
     res.samples.append(dict(fn=site, n=n))
     return res
 
